@@ -930,18 +930,18 @@ static bool getExpressionRange(const Token* expr, MathLib::bigint* minvalue, Mat
         MathLib::bigint vals[4];
         const bool lhsHasKnownRange = getExpressionRange(expr->astOperand1(), &vals[0], &vals[1]);
         const bool rhsHasKnownRange = getExpressionRange(expr->astOperand2(), &vals[2], &vals[3]);
-        if (!lhsHasKnownRange && !rhsHasKnownRange)
+        // the result is non-negative and not greater than any operand that is known to be non-negative
+        const bool lhsNonNegative = lhsHasKnownRange && vals[0] >= 0;
+        const bool rhsNonNegative = rhsHasKnownRange && vals[2] >= 0;
+        if (!lhsNonNegative && !rhsNonNegative)
             return false;
-        if (!lhsHasKnownRange || !rhsHasKnownRange) {
-            if (minvalue)
-                *minvalue = lhsHasKnownRange ? vals[0] : vals[2];
-            if (maxvalue)
-                *maxvalue = lhsHasKnownRange ? vals[1] : vals[3];
-        } else {
-            if (minvalue)
-                *minvalue = vals[0] & vals[2];
-            if (maxvalue)
-                *maxvalue = vals[1] & vals[3];
+        if (minvalue)
+            *minvalue = 0;
+        if (maxvalue) {
+            if (lhsNonNegative && rhsNonNegative)
+                *maxvalue = std::min(vals[1], vals[3]);
+            else
+                *maxvalue = lhsNonNegative ? vals[1] : vals[3];
         }
         return true;
     }
